@@ -175,25 +175,31 @@ func (v *VerifQueue) Len() int {
 
 // VerifStreamState is a read-only view of a muxerStream.
 type VerifStreamState struct {
-	ID                 string
-	IsLeading          bool
-	IsRendition        bool
-	IsDefault          bool
-	Name               string
-	Language           string
-	NextSegmentID      uint64
-	NextPartID         uint64
-	SegmentDeleteCount int
-	SegmentCount       int // len(segments)
-	Gaps               int
-	TargetDuration     int
-	PartTargetDuration time.Duration
-	Closed             bool
-	InitFilePresent    bool
-	HasNextSegment     bool
-	NextSegmentParts   int
-	SegmentSizes       []uint64
-	SegmentDurations   []time.Duration
+	ID                  string
+	IsLeading           bool
+	IsRendition         bool
+	IsDefault           bool
+	Name                string
+	Language            string
+	NextSegmentID       uint64
+	NextPartID          uint64
+	SegmentDeleteCount  int
+	SegmentCount        int // len(segments)
+	Gaps                int
+	TargetDuration      int
+	PartTargetDuration  time.Duration
+	Closed              bool
+	InitFilePresent     bool
+	HasNextSegment      bool
+	NextSegmentParts    int
+	SegmentSizes        []uint64
+	SegmentDurations    []time.Duration
+	SegmentIDs          []int64 // -1 for a gap
+	SegmentPartDurs     [][]time.Duration
+	SegmentPartIDs      [][]uint64
+	NextSegmentPartDurs []time.Duration
+	NextSegmentPartIDs  []uint64
+	NextSegmentSize     uint64 // payload bytes accounted against SegmentMaxSize
 }
 
 // VerifMuxerState is a read-only view of a Muxer.
@@ -243,9 +249,37 @@ func VerifSnapshot(m *Muxer) VerifMuxerState {
 			}
 			ss.SegmentSizes = append(ss.SegmentSizes, seg.getSize())
 			ss.SegmentDurations = append(ss.SegmentDurations, seg.getDuration())
+			var durs []time.Duration
+			var ids []uint64
+			id := int64(-1)
+			switch tseg := seg.(type) {
+			case *muxerSegmentFMP4:
+				id = int64(tseg.id)
+				for _, p := range tseg.parts {
+					durs = append(durs, p.getDuration())
+					ids = append(ids, p.id)
+				}
+			case *muxerSegmentMPEGTS:
+				id = int64(tseg.id)
+			}
+			ss.SegmentIDs = append(ss.SegmentIDs, id)
+			ss.SegmentPartDurs = append(ss.SegmentPartDurs, durs)
+			ss.SegmentPartIDs = append(ss.SegmentPartIDs, ids)
 		}
-		if seg, ok := s.nextSegment.(*muxerSegmentFMP4); ok && seg != nil {
-			ss.NextSegmentParts = len(seg.parts)
+		switch seg := s.nextSegment.(type) {
+		case *muxerSegmentFMP4:
+			if seg != nil {
+				ss.NextSegmentParts = len(seg.parts)
+				ss.NextSegmentSize = seg.size
+				for _, p := range seg.parts {
+					ss.NextSegmentPartDurs = append(ss.NextSegmentPartDurs, p.getDuration())
+					ss.NextSegmentPartIDs = append(ss.NextSegmentPartIDs, p.id)
+				}
+			}
+		case *muxerSegmentMPEGTS:
+			if seg != nil {
+				ss.NextSegmentSize = seg.size
+			}
 		}
 		st.Streams = append(st.Streams, ss)
 	}
